@@ -763,11 +763,14 @@ func c01multiCombined(c *Ctx) {
 		f1, f2 := c05FormatCells(dim)
 		v1, v2 := c05VersionCells(dim)
 		reps := c.Pick(6, 30)
-		for rep := 0; rep < reps+2; rep++ {
-			beyond := rep >= reps // counted and compared with the model only
+		for rep := 0; rep < reps+3; rep++ {
+			// the last three sets go beyond what the property promises: they are counted and compared with the model only
+			//   reps+0: four flips in both format copies; reps+1 / reps+2: one version copy ruined, the other within three
+			//   (the model theorem says these still decode: QRComp.versionCopyOK_ref)
+			beyond := rep >= reps
 			m := cqrClone(t.bm)
 			e1, e2 := c01multiSubset(r, 15, 3), c01multiSubset(r, 15, 3)
-			if beyond {
+			if rep == reps {
 				e1, e2 = c05RandomSubset(r, 15, 4), c05RandomSubset(r, 15, 4)
 			}
 			c05Flip(m, f1, e1)
@@ -775,8 +778,11 @@ func c01multiCombined(c *Ctx) {
 			ev1, ev2 := 0, 0
 			if t.v >= 7 {
 				ev1, ev2 = c01multiSubset(r, 18, 3), c01multiSubset(r, 18, 3)
-				if beyond && rep == reps {
-					ev2 = c05RandomSubset(r, 18, r.Range(4, 18)) // the copy read second, beyond the promise
+				if rep == reps+1 {
+					ev1 = c05RandomSubset(r, 18, r.Range(4, 18))
+				}
+				if rep == reps+2 {
+					ev2 = c05RandomSubset(r, 18, r.Range(4, 18))
 				}
 				c05Flip(m, v1, ev1)
 				c05Flip(m, v2, ev2)
@@ -797,10 +803,14 @@ func c01multiCombined(c *Ctx) {
 				c.CmpF(suite, fmt.Sprintf("c05 decode %d %s hint=%s", dim, cqrBits(m), t.hint.tok), out, cqrCmpParsed)
 			}
 			if beyond {
+				kind := []string{"format-4+4", "version-copy1-ruined", "version-copy2-ruined"}[rep-reps]
+				if t.v < 7 && rep > reps {
+					kind = "no-version-info"
+				}
 				if t.accepts(res) {
-					c.Note("combined-beyond:still-correct")
+					c.Note("combined-beyond:" + kind + ":still-correct")
 				} else {
-					c.Note("combined-beyond:" + strings.SplitN(out, " ", 2)[0])
+					c.Note("combined-beyond:" + kind + ":" + strings.SplitN(out, " ", 2)[0])
 				}
 				continue
 			}
